@@ -162,6 +162,7 @@ class Repo:
             for t in trees.values():
                 align.strip_annotations(t)
             self.renamed_functions = align.restore_function_names(trees)
+            self.renamed_functions.update(align.restore_signatures(trees))
         for name, (path, src) in srcs.items():
             self.modules[name] = Module(name, path, src, trees[name], mutable)
         self._const_cache: dict[tuple[str, str], object] = {}
